@@ -92,7 +92,7 @@ func (o *Obl) base() string {
 }
 
 func ledgerKind(k string) bool {
-	return k == "post" || k == "panic" || k == "impl" || k == "lemma" || k == "alloc" || k == "table" || k == "atcall" || strings.HasPrefix(k, "inv")
+	return k == "post" || k == "panic" || k == "impl" || k == "implpre" || k == "lemma" || k == "alloc" || k == "table" || k == "atcall" || strings.HasPrefix(k, "inv")
 }
 
 func readLedger(path string) ([]string, error) {
@@ -148,6 +148,9 @@ func (e *Engine) checkProperty(prop, tier string, par int, writeLedger bool) int
 		seen := map[string]bool{}
 		var names []string
 		for _, o := range rr.obls {
+			if o.Dep {
+				continue // obligations of functions the property only relies on are listed in the ledgers of their own properties
+			}
 			if (ledgerKind(o.Kind) || (o.Kind == "pre" && strings.Contains(o.Name, "#pre.go."))) && !seen[o.base()] {
 				seen[o.base()] = true
 				n := o.base()
